@@ -254,11 +254,17 @@ def i_field(ex, fr, ins):
     return ex.from_cells(list(x[off:off + n]), ft)
 
 
-def map_ptr(ex, pv, f):
+def map_ptr(ex, pv, f, what="pointer operation"):
     cs = cases_of(pv)
     out = []
     for g, q in cs:
+        if q is None:
+            ex.panic_if(g, "nil pointer dereference (%s)" % what)
+            continue
         out.append((g, f(q)))
+    if not out:
+        from .values import PathDead
+        raise PathDead()
     if len(out) == 1 and out[0][0] is True:
         return out[0][1]
     return Guarded(out)
